@@ -2,7 +2,7 @@
     Statements only; proofs are in Model/Ops1D.v and Base/RangeSet.v. *)
 From Coq Require Import List NArith Bool.
 From MOC.Base Require Import RangeSet.
-From MOC.Model Require Import Qty Ops1D SweepMerge EagerOps.
+From MOC.Model Require Import Qty Ops1D SweepMerge EagerOps EagerUnary.
 Import ListNotations.
 Open Scope N_scope.
 
@@ -81,6 +81,9 @@ Proof. exact union_e_eq_spec. Qed.
 Theorem C01_eager_intersection_as_written : forall ub l r, Valid ub l -> Valid ub r -> inter_e l r = inter ub l r.
 Proof. exact inter_e_eq_spec. Qed.
 
+Theorem C01_eager_complement_as_written : forall ub l, Valid ub l -> 0 < ub -> compl_e ub l = compl ub l.
+Proof. exact compl_e_eq_spec. Qed.
+
 Print Assumptions C01_binary_ops_set_semantics.
 Print Assumptions C01_complement_set_semantics.
 Print Assumptions C01_degrade_set_semantics.
@@ -90,3 +93,4 @@ Print Assumptions C01_difference_by_sweep.
 Print Assumptions C01_sweep_other_operators.
 Print Assumptions C01_eager_union_as_written.
 Print Assumptions C01_eager_intersection_as_written.
+Print Assumptions C01_eager_complement_as_written.
